@@ -634,6 +634,11 @@ def search(ctx):
             # real-dtype noise PSD (e.g. a diffuse-noise model) with a complex target PSD: mixed dtypes in the solves
             n = np.ascontiguousarray(n.real)
             ctx.count('search-singular-dtype:real-noise')
+        if rng.random() < 0.35:
+            # absolute level of the recording (PSDs of a quiet / loud signal): the results are scale invariant
+            lvl = float(10.0 ** rng.uniform(-14, 10))
+            t, n = t * lvl, n * lvl
+            ctx.count('search-singular-level:1e%d' % int(np.floor(np.log10(lvl))))
         t2, n2, sing, which, kind = make_singular(rng, t, n)
         ref = int(rng.integers(D)) if (extra or rng.random() < 0.6) else None
         ctx.count(f'search-singular:{fn}:{which}:{kind}')
@@ -649,6 +654,10 @@ def search(ctx):
         s2 = rng.random(lead) < 0.4
         for idx in np.argwhere(s2):
             A[tuple(idx)] = pu.singular_psd(rng, D, str(rng.choice(['zero', 'dead-channel'])))
+        if rng.random() < 0.35:
+            lv = float(10.0 ** rng.uniform(-14, 10))
+            A = A * lv
+            B = B * float(10.0 ** rng.uniform(-14, 10))
         dkind = str(rng.choice(['complex/complex', 'complex/complex', 'real/complex', 'real/real', 'complex/real']))
         if dkind.startswith('real'):
             A = np.ascontiguousarray(A.real)
